@@ -297,6 +297,10 @@ def main(run):
                 if run.violations:
                     break
                 enable_while_streaming(run, rng)
+        # pl14: the C08_*_src theorems are about the interpreted _recv_thread / stream_data / _stream_thread:
+        # PyLite's reading of these methods against CPython (scripted link, stub queues, and real queue.Queue handles)
+        if not run.violations:
+            run.pylite(["recvpath", "streamthread"])
     else:
         run.proof_ok = False
     return run.finish(rule=RULE, assumptions=[
